@@ -43,7 +43,8 @@ MINIMUMS = {
               'pairs:explicit-default': 200, 'pairs:leaf': 200, 'pairs:callable': 100, 'pairs:btype': 100,
               'pairs:alias-redirected': 60, 'pairs:unshared': 60, 'mixed_key_dicts': 120,
               'builds_compared': 1000, 'triples': 300, 'mixed_pairs': 1000,
-              'pairs_sharing_objects_by_identity': 200},
+              'pairs_sharing_objects_by_identity': 200,
+              'late_registered_cases': 100},
     'thorough': {'evaluations': 1000},
 }
 
@@ -58,7 +59,9 @@ SWAP = {kinds.node: kinds.node2, kinds.node2: kinds.node, kinds.two: kinds.Base,
 
 def plan(tier):
   n = 90 if tier == 'quick' else 9000
-  return [{'name': f's{i}', 'kind': 'main', 'n': n, 'start': i * n} for i in range(16)]
+  nl = 200 if tier == 'quick' else 6000
+  return ([{'name': f's{i}', 'kind': 'main', 'n': n, 'start': i * n} for i in range(16)] +
+          [{'name': f'late{i}', 'kind': 'late', 'n': nl, 'start': i * nl} for i in range(2)])
 
 
 # ---------------------------------------------------------------------------------------
@@ -438,12 +441,36 @@ def alias_case(rng, acc):
   acc.case((sketch, 'alias-redirected', wrap), True)
 
 
+EXTRA_CONTAINERS = []
+
+
+def run_late(spec, acc):
+  """A user container type becomes traversable AFTER configurations holding it were compared
+  (its registration lives in a module imported later): from then on build() traverses it, so
+  == has to as well."""
+  from vt import nodes as vnodes
+  import random
+  rng0 = random.Random(spec.get('start', 0))
+  for _ in range(12):          # the type is still an opaque leaf here; answers are not judged
+    item = fdl.Config(kinds.two, x=rng0.randint(0, 3))
+    a = fdl.Config(kinds.node, a=vnodes.LateBox([item, item]), b=[vnodes.LateBox([1])])
+    b = fdl.Config(kinds.node, a=vnodes.LateBox([item, item]), b=[vnodes.LateBox([1])])
+    safe_eq(a, b), safe_eq(a, a)
+    acc.obs('compared_before_registration')
+  vnodes.register_latebox()
+  EXTRA_CONTAINERS[:] = ['latebox', 'latebox']
+  for _, rng in acc.cases(spec):
+    run_case(rng, acc)
+    acc.obs('late_registered_cases')
+
+
 def run_case(rng, acc):
-  if rng.random() < 0.2:
+  if rng.random() < 0.2 and not EXTRA_CONTAINERS:
     return alias_case(rng, acc)
   opts = gen.Opts(max_nodes=rng.choice([4, 8, 14]), max_depth=4, p_share=rng.choice([0.2, 0.45]),
                   p_clone=0.2, btypes=['Config', 'Config', 'Partial'], fns=FNS, lattice=0.1,
-                  leaves=LEAVES, containers=['list', 'tuple', 'dict', 'dict', 'point', 'defaultdict'],
+                  leaves=LEAVES,
+                  containers=['list', 'tuple', 'dict', 'dict', 'point', 'defaultdict'] + EXTRA_CONTAINERS,
                   dict_keys=['k1', 'k2', 4, (1, 'a'), None, 'z', 0])
   g = gen.DagGen(rng, opts)
   root = g.dag()
@@ -528,5 +555,7 @@ def run_case(rng, acc):
 
 
 def run_shard(spec, seed, acc):
+  if spec['kind'] == 'late':
+    return run_late(spec, acc)
   for _, rng in acc.cases(spec):
     run_case(rng, acc)
